@@ -817,6 +817,11 @@ class Interp:
             if default is not None:
                 if attr in self.spec.absent_attrs:
                     return default
+            # a literal class attribute of the class under contract (self.CONSTANT)
+            if node is not None and isinstance(node.value, ast.Name) and node.value.id == 'self':
+                cc = getattr(self.mod, 'class_consts', {}).get(self.frame_clsname(), {})
+                if attr in cc and isinstance(cc[attr], (int, float, str, bytes, bool)) or (attr in cc and cc[attr] is None):
+                    return self.e_Constant(ast.Constant(cc[attr]))
             return VFunc('%s.%s' % (obj.cls or 'obj', attr), bound=obj)
         if isinstance(obj, (VCons, VExc)):
             if attr in obj.attrs:
@@ -845,6 +850,14 @@ class Interp:
                 return VStr(obj.name.split('.')[-1])
             return VFunc(attr, bound=obj)
         raise Unsupported('getattr %s on %r' % (attr, obj))
+
+    def frame_clsname(self):
+        f = self.frame
+        while f is not None:
+            if f.clsname:
+                return f.clsname
+            f = f.parent
+        return None
 
     # ---------------------------------------------------------------- expressions
     def eval_cond(self, node):
